@@ -6,7 +6,7 @@ Bytes, GreedyBytes, GreedyRange(Byte), Tell, RawCopy, Pointer), parsed with pars
 lengths incl. 0 and over-long.  Decided by trace validation: every recorded position (enter/leave of every node, in the
 coordinates of the outermost stream), every Tell / RawCopy offset and every inner value must be what Sem prescribes.
 """
-from .. import ast as A, gen, values as V, campaign, universes as U
+from .. import ast as A, gen, values as V, campaign, universes as U, speccode
 from . import common
 
 LEVEL = "model_checking"
@@ -42,6 +42,9 @@ def run(ctx):
             camp.sh.maybe_flush()
             if i < 3:
                 ctx.sample({"program": prog})
+        # spec -> code: every session TLC explores on the delimiter part of the model's universe
+        progs, kw, sessions, _ = speccode.explore(ctx, focus="C08", part=speccode.part_of(ctx, 6 if quick else 8))
+        nt += speccode.drive(camp, progs, kw, sessions)
         vs = camp.validate()
         campaign.judge(ctx, camp, vs, conformance=lambda v, m: campaign.kind_of(v) in KINDS and m["case"]["op"] == "parse")
         ctx.cov["distinct_nontrivial"] = nt
